@@ -18,10 +18,11 @@ def D_matrix(eng, rows, cols, name="d", symmetric=False):
     return models.sym_matrix(eng, rows, cols, symmetric=symmetric, diag="free", name=name)
 
 
-def build_knn_graph(tw, branch, n, D, labels=None):
-    """a fresh KNNSubgraph over n samples whose distances are D[i][j] (not assumed symmetric)"""
+def build_knn_graph(tw, branch, n, D, labels=None, idx=None):
+    """a fresh KNNSubgraph over n samples whose distances are D[i][j] (not assumed symmetric); idx: the rows of D
+    the samples stand for (default 0..n-1)"""
     KNN = tw.mod("opfython.subgraphs.knn").KNNSubgraph
-    X, Y, I = models.data_for(branch, n, labels)
+    X, Y, I = models.data_for(branch, n, labels, idx=idx)
     g = KNN(X, Y, I)
     if branch == "pre":
         args = (None, True, symnp.SArr.from_list(D))
@@ -35,7 +36,8 @@ def build_knn_graph(tw, branch, n, D, labels=None):
 
 def arcs_post(eng, cfg, g, D, k, maxd, info, tag=""):
     n = g.n_nodes
-    Dz = [[to_real(D[i][j]) for j in range(n)] for i in range(n)]
+    rows = cfg.get("idx") or list(range(n))
+    Dz = [[to_real(D[rows[i]][rows[j]]) for j in range(n)] for i in range(n)]
     want = min(k, n - 1)
     allmax = []
     okshape = True
@@ -78,8 +80,10 @@ def make_arcs_harness(cfg, tw):
 
     def harness():
         eng = core.engine()
-        D = D_matrix(eng, n, n)
-        g, args = build_knn_graph(tw, branch, n, D)
+        rows = cfg.get("idx")
+        N = (max(rows) + 1) if rows else n
+        D = D_matrix(eng, N, N)
+        g, args = build_knn_graph(tw, branch, n, D, idx=rows)
         out = dict(D=D, g=g)
         if k1 is not None:
             g.create_arcs(k1, *args)
@@ -312,8 +316,19 @@ def cluster_post(eng, cfg, out, info):
             npl = nodes[p].n_plateaus if model == "uns" else len(nodes[p].adjacency)
             lim = (npl + k) if model == "uns" else len(nodes[p].adjacency)
             adjp = [int(a) for a in nodes[p].adjacency[:lim]]
-            if not (cfg.get("e2e") and model == "knn"):      # KNN fit destroys the arcs before returning
+            if not (cfg.get("e2e") and model == "knn"):
                 eng.check("sample-was-neighbour-of-its-predecessor[%d]" % i, i in adjp, info)
+            else:
+                # KNN fit destroys the arcs before returning: judge the relation from the distances themselves.
+                # i is a k-neighbour of p iff fewer than k other samples are strictly closer to p; a plateau arc
+                # adds the reverse direction between samples of equal density
+                D = out["D"]
+
+                def near(a, b):
+                    closer = [z3.If(to_real(D[a][j]) < to_real(D[a][b]), 1, 0) for j in range(n) if j not in (a, b)]
+                    return (z3.Sum(closer) <= k - 1) if closer else z3.BoolVal(True)
+                eng.check("sample-was-neighbour-of-its-predecessor[%d]" % i,
+                          z3.Or(near(p, i), z3.And(near(i, p), dens[i] == dens[p])), info)
             eng.check("cost-is-min(cost(pred),density)[%d]" % i, c == zmin(to_real(nodes[p].cost), dens[i]), info)
             eng.check("cost-above-density-minus-1[%d]" % i, c > dens[i] - 1, info)
         eng.check("density-below-root's-plus-1[%d]" % i, dens[i] < dens[r] + 1, info)
